@@ -42,5 +42,4 @@ def run(ctx):
     ctx.add_samples([json.loads(l) for l in lines[5:7]])
 
 def replay(ctx, path):
-    print(open(path).read()[:4000])
-    return 0
+    return ctx.replay_trace(path)
